@@ -89,3 +89,11 @@ def _c04(prop, tier, seed, replay):
 
 
 CHECKS["C04"] = _c04
+
+
+def _c15(prop, tier, seed, replay):
+    import fam_pure
+    return seqfamily.check(prop, fam_pure.iso_family(), tier, seed, replay)
+
+
+CHECKS["C15"] = _c15
